@@ -229,10 +229,13 @@ func (c Case) sql() string {
 // ---- generator ------------------------------------------------------------------------------
 
 // avoid reports whether the generator must steer clear of a confirmed-defect shape (an open finding).
-// C16_NOAVOID=1 switches the steering off: the known-finding filter alone must then explain every
-// discrepancy, which is how the narrowness of features() is checked.
+// C16_NOAVOID=<feature,feature|all> switches the steering off: the known-finding filter alone must then
+// explain every discrepancy, which is how the narrowness of features() is checked.
 func avoid(feature string) bool {
-	return os.Getenv("C16_NOAVOID") == "" && pbt.Open("C16", feature)
+	if na := os.Getenv("C16_NOAVOID"); na == "all" || strings.Contains(","+na+",", ","+feature+",") {
+		return false
+	}
+	return pbt.Open("C16", feature)
 }
 
 var narrowKinds = map[string]bool{"int8": true, "int16": true, "uint8": true, "uint16": true}
